@@ -22,7 +22,7 @@ func init() {
 			"(5) nothing reachable from the index functions reads a clock, randomness, the environment or iterates a map; (6) NewReMap fills boundaries y*(i+1) and forces the last to MaxUint64. " +
 			"NOT decided: equality of sharded and unsharded containers over whole histories (only routing and delegation), quality of the hash.",
 		Assumptions: []string{"1 <= numbs <= MaxInt64 (a shard count of 0 divides by zero in NewReMap itself)", "sort.Search(n,f) returns a value in [0,n]"},
-		Floors:      map[string]int{"C17.index-range": 3, "C17.construction": 6, "C17.index-provenance": 20, "C17.delegation": 20, "C17.deterministic": 3, "C17.partition": 2, "C17.multi-key-route": 1},
+		Floors:      map[string]int{"C17.index-range": 3, "C17.construction": 6, "C17.index-provenance": 20, "C17.delegation": 20, "C17.deterministic": 3, "C17.partition": 2, "C17.multi-key-route": 1, "C17.to-bytes": 1, "C17.ctor-options": 13},
 		Run:         runC17,
 	})
 }
@@ -54,6 +54,103 @@ func runC17(c *Ctx) {
 		c.checkWideContainer("C17", w, numbs)
 	}
 	c.checkMultiKeyRoute()
+	c.checkToBytes()
+	c.checkCtorOptions()
+}
+
+// checkCtorOptions: a public constructor of a sharded container hands the options it accepts on to the code that
+// interprets them, on every path — a constructor that drops them builds every shard with the defaults (shard
+// count, rwRatio), so the sharded container no longer behaves like the configured unsharded one.
+func (c *Ctx) checkCtorOptions() {
+	seen := map[string]bool{}
+	for _, w := range wideContainers {
+		if seen[w.rel] {
+			continue
+		}
+		seen[w.rel] = true
+		for _, fn := range c.funcsOf(w.rel) {
+			if fn.Parent() != nil || fn.Signature.Recv() != nil || !fn.Signature.Variadic() || !token.IsExported(fn.Name()) || !strings.HasPrefix(fn.Name(), "Ne") {
+				continue
+			}
+			opts := fn.Params[len(fn.Params)-1]
+			cons := w.rel + "." + fn.Name()
+			noInl := func(*ssa.Function, int) bool { return false }
+			traces, complete := c.Trace(fn, TraceConfig{Inline: noInl})
+			if !complete {
+				c.undecided("C17.ctor-options", cons, fn.Pos(), "path budget exceeded")
+				continue
+			}
+			ok, n := true, 0
+			for _, t := range traces {
+				if t.End != EndReturn {
+					continue
+				}
+				n++
+				used := false
+				for _, e := range t.Events {
+					if e.Kind != EvCall {
+						continue
+					}
+					for _, a := range e.Args {
+						if a.mentions("$" + opts.Name()) {
+							used = true
+						}
+					}
+				}
+				if !used && ok {
+					ok = false
+					c.violated("C17.ctor-options", cons, fn.Pos(), "the constructor accepts options ("+opts.Name()+") but does not pass them on: every shard is built with the defaults, whatever the caller configured", c.witness(t, len(t.Events)-1)...)
+				}
+			}
+			if ok && n > 0 {
+				c.holds("C17.ctor-options", cons, fn.Pos(), "options forwarded on every path")
+			}
+		}
+	}
+}
+
+// checkToBytes: the hash route is total — for every supported key type remap.ToBytes returns without panicking:
+// each fixed-width encoding writes into a scratch slice at least as long as the width it writes, and returns
+// that scratch slice (the bytes hashed are the bytes written).
+func (c *Ctx) checkToBytes() {
+	fn := c.mustFn("remap", "ToBytes")
+	if fn == nil {
+		return
+	}
+	traces, complete := c.Trace(fn, TraceConfig{})
+	if !complete {
+		c.undecided("C17.to-bytes", "remap.ToBytes", fn.Pos(), "path budget exceeded")
+		return
+	}
+	width := map[string]int64{"PutUint16": 2, "PutUint32": 4, "PutUint64": 8}
+	ok, n := true, 0
+	for _, t := range traces {
+		for i, e := range t.Events {
+			if e.Kind != EvCall || !strings.HasPrefix(e.callName(), "(encoding/binary.") {
+				continue
+			}
+			m := e.callName()[strings.LastIndex(e.callName(), ".")+1:]
+			w, known := width[m]
+			if !known || len(e.Args) < 2 {
+				continue
+			}
+			n++
+			have := constSliceLen(e.Args[1])
+			if have < w && ok {
+				ok = false
+				c.violated("C17.to-bytes", "remap.ToBytes", e.Pos, fmt.Sprintf("%s writes %d bytes into a scratch slice of %d: for keys of this type the hash route panics (index out of range) where the unsharded container works", m, w, have), c.witness(t, i)...)
+			}
+			if t.End == EndReturn && len(t.Ret) == 1 && ok {
+				if r := t.Ret[0]; r.root() == nil || e.Args[1].root() == nil || r.root().Key() != e.Args[1].root().Key() || constSliceLen(r) != w {
+					ok = false
+					c.violated("C17.to-bytes", "remap.ToBytes", e.Pos, "the bytes returned for hashing are not exactly the bytes just written ("+c.short(t.Ret[0].Key())+")", c.witness(t, len(t.Events)-1)...)
+				}
+			}
+		}
+	}
+	if ok {
+		c.check(n >= 8, "C17.to-bytes", "remap.ToBytes", fn.Pos(), fmt.Sprintf("%d fixed-width encodings, each into a scratch slice of its own width", n), "fewer fixed-width encodings than integer key types were found in ToBytes")
+	}
 }
 
 // checkMultiKeyRoute: the multi-key forms of the sharded key locker route each key with the container's own
